@@ -379,13 +379,16 @@ class Impl:
             data = sp.empty.data
             layer = " ".join(self.cname(c) for c in cells if bool(data[c.coordinate]))
             pempty = " ".join(self.cname(c) for c in cells if bool(c.empty))
+            attr = "na"
         else:
             layer = pempty = "na"
+            # no property layer: `cell.empty` is a plain attribute that exists only once add_agent has run on the cell
+            attr = " ".join(f"{self.cname(c)}:{int(bool(c.empty))}" for c in cells if hasattr(c, "empty"))
         empties = " ".join(self.cname(c) for c in sp.empties)
         agents = " ".join(str(a._vidx) for a in sp.agents)
         reg = " ".join(str(a._vidx) for a in self.model.agents)
         return (f"ag={ag} | occ={occ} | empty={empty} | full={full} | layer={layer} | pempty={pempty} | "
-                f"empties={empties} | agents={agents} | reg={reg}")
+                f"empties={empties} | agents={agents} | reg={reg} | attr={attr}")
 
     # ------------------------------------------------------------------ ops
     def mutate(self, w):
@@ -1329,6 +1332,16 @@ def oracle_c06(sc, obs, reject_clause=True):
                 bad.append(f"view-layer: after `{line}` grid.empty.data true at {d['layer']} != empty cells {truth}")
             if d["pempty"] != truth:
                 bad.append(f"view-cell.empty: after `{line}` cell.empty true at {d['pempty']} != empty cells {truth}")
+        if h.kind != "grid" and "attr" in d:
+            # `cell.empty` where it exists (the cell has been entered at least once) says whether the cell is empty now; a cell
+            # without the attribute has never been entered
+            for t in d["attr"]:
+                n, _, v = t.partition(":")
+                if (v == "1") != (not occ[n]):
+                    bad.append(f"view-cell.empty: after `{line}` cell {n} has empty={v} but holds {occ[n]}")
+            unset = set(names) - {t.partition(":")[0] for t in d["attr"]}
+            if any(occ[n] for n in unset):
+                bad.append(f"view-cell.empty: after `{line}` occupied cells {[n for n in unset if occ[n]]} have no `empty` attribute")
         if sorted(d["empties"]) != sorted(truth):
             bad.append(f"view-empties: after `{line}` space.empties {d['empties']} != {truth}")
         if sorted(d["agents"]) != sorted(x for n in names for x in occ[n]):
